@@ -140,14 +140,16 @@ def bit_disjoint(chk, program):
     chk.unit('disjointness_checked', n)
 
 def run(chk, program, tier):
+    chk.rule('ENC-STATE', 'encoder keeps no state between messages besides the fast-packet sequence counter')
     for r, t in (('ENC-RANGE', 'range test dominates every return of encode_number'), ('ENC-NA', 'None -> not-available code'),
-                 ('ENC-MASK', 'mask/shift per piece; disjoint database bit ranges'), ('ENC-MISSING', 'missing field raises'),
+                 ('ENC-MASK', 'mask/shift per piece; disjoint database bit ranges'), ('GEN-ENC', 'each call site hands encode_number the bit length / signedness / resolution of its own field'), ('ENC-MISSING', 'missing field raises'),
                  ('ENC-WRAP', 'encoder errors surface as ValueError'), ('ENC-PRODUCER', 'unchecked producers reaching a mask'), ('ROUND', 'round before int')):
         chk.rule(r, t)
     H.enc_range(chk, program)
-    sites = E.gen_enc(chk, program, want=('mask',))
+    sites = E.gen_enc(chk, program, want=('table', 'mask'))
     bit_disjoint(chk, program)
     enc_missing(chk, program)
     enc_wrap(chk, program)
+    E.enc_state(chk, program)
     E.enc_producer(chk, program, sites)
     chk.floor('encoder_rows', chk.units.get('encoder_rows', 0), 1700)
